@@ -158,6 +158,7 @@ func main() {
 	runECCRegister()
 	runECCHistories() // parity + interleaving, vector families
 	runECCTwins()
+	runECCConstructedInfo()
 	runECCLongHistories()
 	if !chk.Quick() {
 		runECCValues()
@@ -185,6 +186,9 @@ func replay(c rcase) {
 	case "ecch":
 		fmt.Println("replay of a call history re-runs the history family")
 		runECCHistories()
+	case "ecci":
+		fmt.Println("replay of a constructed-SymbolInfo case re-runs the family")
+		runECCConstructedInfo()
 	case "eccl":
 		fmt.Println("replay of a long call history re-runs the family")
 		runECCLongHistories()
